@@ -33,7 +33,7 @@ func runC13(p *core.Prog, r *core.Report) {
 	r.Rule("C13-R1", "line grammar: every item the text emitters append is ` key=value`, one '=' between key and value, one '\\n' at the end (emission typestate, see emit.go)", 0)
 	r.Rule("C13-R2", "sanitizer: every non-constant datum reaches the line through the quoting function, a formatter whose alphabet has no whitespace, '=' or '\"', or the handler's own pre-rendered bytes; colour-only sinks are out of scope", 12)
 	r.Rule("C13-R3", "the quoting predicate is sufficient: evaluated over all 128 ASCII bytes and every Unicode scalar value, a character that is left bare is never whitespace, '=', '\"', a control character or invalid UTF-8; the empty string is quoted", 3)
-	r.Rule("C13-R4", "source location: every function that captures the caller with runtime.Callers(3, …) is called only from entry points that are not themselves called from inside the logger package (fixed stack depth)", 3)
+	r.Rule("C13-R4", "source location: a function that captures the caller with runtime.Callers(2+d, …) is reached through exactly d frames of the package — d-1 private levels nobody outside can enter, then entry points that are not themselves called from inside the logger package (fixed stack depth)", 1)
 	r.NotDecided = append(r.NotDecided, "equality of unquoted tokens with the inputs (delegated to strconv.AppendQuote/Unquote)", "content of dotted group paths beyond: joined with '.' in the scratch buffer and quoted as one string")
 	r.Trusted = append(r.Trusted, "strconv.AppendQuote output is one \"…\" token without raw whitespace/control bytes and round-trips through Unquote", "unicode.IsSpace / IsPrint tables of the Go release in use", "strconv.AppendInt/Uint/Bool/Float, Time.AppendFormat(RFC3339), Duration.String alphabets")
 
